@@ -352,7 +352,7 @@ def run_check(prop: str, sim: typing.Any, tier: str, seed: int, workers: int, re
             c.setdefault("label", "directed-%d" % i)
             c.setdefault("hash_seed", hash_seed_for(seed, prop, c["label"]))
             cases.append(c)
-        n_random = sim.n_cases(tier)
+        n_random = int(os.environ.get("VERIF_N_CASES", "") or sim.n_cases(tier))
         for i in range(n_random):
             c = sim.gen_case(seed, i, tier)
             c.setdefault("label", "seed%d-%d" % (seed, i))
@@ -449,7 +449,11 @@ def run_check(prop: str, sim: typing.Any, tier: str, seed: int, workers: int, re
         }
         if hasattr(sim, "evidence_extra"):
             extra.update(sim.evidence_extra(agg))
-        write_evidence(prop, tier, seed, sim.LEVEL, agg, wall, sim, extra, len(new_by_sig))
+        if os.environ.get("VERIF_DIGESTS_OUT"):
+            with open(os.environ["VERIF_DIGESTS_OUT"], "w", encoding="utf-8") as f:
+                json.dump(agg.digests, f, indent=0, sort_keys=True)
+        if not os.environ.get("VERIF_NO_EVIDENCE"):
+            write_evidence(prop, tier, seed, sim.LEVEL, agg, wall, sim, extra, len(new_by_sig))
         log(
             "cases=%d evaluations=%d nontrivial=%d states=%d violations(new)=%d known=%d harness_errors=%d wall=%.1fs"
             % (agg.cases, agg.evaluations, len(agg.nontrivial), len(agg.states), len(new_by_sig), len(known_hits), len(agg.harness_errors), wall)
